@@ -453,6 +453,11 @@ def main():
     for mesh in ("tetra", "screen2"):
         for ts, rs in ((P1B, P1B), (DP0, P1B), (DP1, DP0), (RWGB, RWGB), (SNCB, RWGB), (seg, DP1), (("RWG", 0, {"segments": [2], "include_boundary_dofs": True}), SNCB)):
             run.add("sparse.identity[%s %s%d%s x %s%d%s]" % (mesh, ts[0], ts[1], sorted(ts[2]), rs[0], rs[1], sorted(rs[2])), "post", ob_sparse, "identity", mesh, ts, rs)
+        # different normal multipliers on the two sides, one side with a normal-dependent basis (SNC = n x RWG): each space's own multipliers must be used
+        snc_sw = ("SNC", 0, {"include_boundary_dofs": True, "swapped_normals": [2]})
+        rwg_sw = ("RWG", 0, {"include_boundary_dofs": True, "swapped_normals": [2]})
+        for ts, rs in ((snc_sw, RWGB), (RWGB, snc_sw), (SNCB, rwg_sw), (snc_sw, SNCB)):
+            run.add("sparse.identity[%s %s%d%s x %s%d%s]" % (mesh, ts[0], ts[1], sorted(ts[2]), rs[0], rs[1], sorted(rs[2])), "post", ob_sparse, "identity", mesh, ts, rs)
         for ts, rs in ((P1B, P1B), (DP1, P1B), (seg, P1B)):
             run.add("sparse.laplace_beltrami[%s %s%d%s x %s%d]" % (mesh, ts[0], ts[1], sorted(ts[2]), rs[0], rs[1]), "post", ob_sparse, "laplace_beltrami", mesh, ts, rs)
     # segment spaces whose support is not a leading block of elements: position in support_elements != element number
